@@ -176,7 +176,27 @@ fn features() -> Result<String, String> {
     Ok(out)
 }
 
+/// Nothing connected and nothing echoing: every PDU times out on the virtual clock.
+fn no_echo() -> Result<String, String> {
+    let mut seg = Segment::line(Vec::new());
+    seg.echo_when_empty = false;
+    let (mut net, md) = Net::simple(seg);
+    let t0 = ecverif::clock::now();
+    let r = run(&mut net, async { md.init_single_group::<4, 16>(|| 0).await.map(|g| g.len()) });
+    match r {
+        Ok(Err(ethercrab::error::Error::Timeout(_))) => Ok(format!("timeout after {} us", ecverif::clock::now() - t0)),
+        other => Err(format!("{:?}", other.map(|x| x.map_err(|e| format!("{e:?}"))))),
+    }
+}
+
 fn main() {
+    match no_echo() {
+        Ok(s) => println!("ok no-echo {s}"),
+        Err(e) => {
+            println!("FAIL no-echo {e}");
+            std::process::exit(1);
+        }
+    }
     match features() {
         Ok(s) => println!("ok features {s}"),
         Err(e) => {
